@@ -144,6 +144,9 @@ func (r *Report) Finish() int {
 		code = 1
 	}
 	r.Coverage["known_finding_occurrences"] = len(r.Violations) - len(unknown)
+	if r.Assumptions == nil {
+		r.Assumptions = []string{}
+	}
 	evd := map[string]interface{}{
 		"property_id": r.Property,
 		"tier":        Tier(),
